@@ -122,7 +122,22 @@ def r2_reflexive_first(ctx, which="typeorder"):
     f = A.typeorder_fn(ctx.repo) if which == "typeorder" else A.subclasscheck_fn(ctx.repo)
     ctx.touch(f)
     p1, p2 = f.params[0], f.params[1]
-    body = [s for s in f.node.body if not (isinstance(s, ast.Expr) and isinstance(s.value, ast.Constant))]
+    def inert(s):
+        """A statement that cannot decide or consult anything: docstring, assert, counter update."""
+        if isinstance(s, ast.Expr) and isinstance(s.value, ast.Constant):
+            return True
+        if any(isinstance(x, (ast.Return, ast.Raise, ast.Yield, ast.YieldFrom)) for x in ast.walk(s)):
+            return False
+        for c in ast.walk(s):
+            if isinstance(c, ast.Call):
+                cn = call_name(c) or ""
+                if cn in (f.name, "issubclass", "hasattr", "get_origin", "get_args", "typing.get_origin", "typing.get_args") or cn.split(".")[-1].startswith("__"):
+                    return False
+        return isinstance(s, (ast.Assert, ast.AugAssign, ast.Assign, ast.AnnAssign, ast.Expr, ast.Pass))
+
+    body = list(f.node.body)
+    while body and inert(body[0]):
+        body.pop(0)
     first = body[0] if body else None
     want = "Order.SAME" if which == "typeorder" else "True"
     ok = (
@@ -335,40 +350,34 @@ def r4_tables(ctx):
 
 
 def r5_subclass_fallback(ctx):
-    from .c14 import flatten_chain
-
+    """The tail of typeorder on plain classes, decided for the four truth assignments of
+    (issubclass(t1, t2), issubclass(t2, t1)) by interpreting the tail."""
     f = A.typeorder_fn(ctx.repo)
     ctx.touch(f)
     p1, p2 = f.params[0], f.params[1]
-    fw = bw = None
-    for s in f.node.body:
-        if isinstance(s, ast.Assign) and isinstance(s.value, ast.Call) and call_name(s.value) == "issubclass" and isinstance(s.targets[0], ast.Name):
-            a = [dotted(x) for x in s.value.args]
-            if a == [p1, p2]:
-                fw = s.targets[0].id
-            elif a == [p2, p1]:
-                bw = s.targets[0].id
-    ctx.require(fw and bw, f"{f.key}: the issubclass fallback in both directions was not found")
+    # the tail: from the first top-level statement that calls issubclass to the end
+    idx = None
+    for i, st in enumerate(f.node.body):
+        if any(isinstance(c, ast.Call) and call_name(c) == "issubclass" for c in ast.walk(st)):
+            idx = i
+            break
+    ctx.require(idx is not None, f"{f.key}: no issubclass fallback for plain classes")
+    tail = f.node.body[idx:]
+    fake = ast.FunctionDef(name="tail", args=f.node.args, body=tail, decorator_list=[], lineno=tail[0].lineno)
+    want = {(True, True): "SAME", (True, False): "LESS", (False, True): "MORE", (False, False): "NONE"}
     got = {}
-    for test, body, node in flatten_chain(f.node.body):
-        rets = [x for x in body if isinstance(x, ast.Return)]
-        if not rets:
-            continue
-        if test is None:
-            names = ()
-        else:
-            names = tuple(sorted(n.id for n in ast.walk(test) if isinstance(n, ast.Name) and n.id in (fw, bw)))
-            if not names or any(not isinstance(x, (ast.Name, ast.BoolOp, ast.And, ast.Load)) for x in ast.walk(test)):
-                continue
-        got[names] = src(rets[0].value)
-    want = {(fw,): "Order.LESS", (bw,): "Order.MORE", (): "Order.NONE"}
-    ok = all(got.get(k) == v for k, v in want.items())
+    for a in (True, False):
+        for b in (True, False):
+            table = {("T1", "T2"): a, ("T2", "T1"): b}
+            it = Interp(A.order_enum(ctx.repo).name, stubs={"issubclass": lambda x, y, t=table: t[(x, y)]})
+            got[(a, b)] = it.run(fake, {p1: "T1", p2: "T2"})
+    bad = {k: v for k, v in got.items() if v != want[k]}
     ctx.ob(
         f"{f.key}:issubclass-fallback",
-        f.loc(),
-        f"on plain classes: issubclass({p1}, {p2}) alone -> LESS, issubclass({p2}, {p1}) alone -> MORE, neither -> NONE",
-        ok,
-        f"the plain-class fallback answers {got}: the order no longer coincides with subclassing",
+        f.loc(tail[0]),
+        "on plain classes: both directions -> SAME, issubclass(t1, t2) only -> LESS, issubclass(t2, t1) only -> MORE, neither -> NONE (4 cases interpreted)",
+        not bad,
+        f"the plain-class fallback answers {bad} (expected {dict((k, want[k]) for k in bad)}): two distinct classes that are subclasses of each other (structurally identical protocols, hook-based ABCs) compare LESS in both directions instead of SAME, so one of two equally specific methods silently wins",
     )
 
 
@@ -417,7 +426,40 @@ def r6_dependent_pairs(ctx):
     )
 
 
+def r7_every_pair_compared(ctx):
+    """In the layer sorter every pair of applicable types goes through the order function: nothing skips the call."""
+    repo = ctx.repo
+    srt = A.layer_sorter(repo)
+    to = A.typeorder_fn(repo)
+    cands = [srt] + [f for f in srt.module.funcs.values() if f.parent is None and any(isinstance(c, ast.Call) and call_name(c) == f.name for c in ast.walk(srt.node))]
+    site = None
+    for f in cands:
+        for lp in ast.walk(f.node):
+            if isinstance(lp, ast.For) and any(isinstance(c, ast.Call) and call_name(c) == to.name for s in lp.body for c in ast.walk(s)) and not any(isinstance(x, ast.For) and any(isinstance(c, ast.Call) and call_name(c) == to.name for c in ast.walk(x)) for s in lp.body for x in ast.walk(s)):
+                site = (f, lp)
+    ctx.require(site is not None, f"{srt.key}: the pairwise comparison loop was not found")
+    f, lp = site
+    ctx.touch(f)
+    c = cfg_of(ctx, f)
+    call_st = [s for b in lp.body for s in ast.walk(b) if isinstance(s, ast.stmt) and not hasattr(s, "body") and any(isinstance(x, ast.Call) and call_name(x) == to.name for x in ast.walk(s))]
+    ok = False
+    if call_st:
+        first = c.node_of(lp.body[0])
+        target = c.node_of(call_st[0])
+        inside = {c.node_of(x) for b in lp.body for x in ast.walk(b) if isinstance(x, ast.stmt) and c.node_of(x) is not None}
+        reach = c.reachable(first, avoiding=[target], strict=False)
+        ok = first == target or not any(n not in inside for n in reach if n != c.exc_exit)
+    ctx.ob(
+        f"{f.key}:every-pair-compared",
+        f.loc(lp),
+        f"every pair of applicable types reaches `{to.name}(...)`: no path through the pair loop skips the comparison",
+        ok,
+        "some pairs of applicable types are never compared (a `continue` / condition skips the order function): two types that are ordered (e.g. Literal[True] below Literal[1], by their bounds) end up in the same layer and a call that should prefer one is reported ambiguous",
+    )
+
+
 RULES = [
+    ("C12.R7", "P1", r7_every_pair_compared, "every pair of applicable types is compared"),
     ("C12.R6", "P1", r6_dependent_pairs, "dependent vs dependent: ordered by bounds, mirrored"),
     ("C12.R5", "P1", r5_subclass_fallback, "plain classes are ordered by issubclass"),
     ("C12.R1", "P1", r1_swap_parity, "swap parity"),
